@@ -264,3 +264,47 @@ def list_equality(xs, ys):
 
 def max_of_list_len(xs, ys):
     return max(len(xs), len(ys))
+
+def str_index(s):
+    return s[0] + s[-1]
+
+def sorted_small(xs):
+    ys = sorted(xs)
+    return ys[0] * 100 + ys[-1]
+
+def tuple_membership(a, b):
+    if a in (1, 2, b):
+        return 1
+    return 0
+
+def nested_ternary(a, b):
+    return (1 if a > b else 2 if a == b else 3) * (a if a else 7)
+
+def both_negative_division(a, b):
+    return (a // b, a % b)
+
+def int_of_negative(x):
+    return int(x) + int(-x)
+
+def float_abs_min(x, y):
+    return abs(x) + min(x, y) * 2
+
+def string_compare_chain(s, t, u):
+    if s <= t <= u:
+        return 1
+    return 0
+
+def accumulate_in_try(xs):
+    t = 0
+    for x in xs:
+        try:
+            if x < 0:
+                raise ValueError(x)
+            t += x
+        except ValueError:
+            t -= 1
+    return t
+
+def or_default(a, b):
+    x = a or b
+    return x + 1
